@@ -179,12 +179,26 @@ def _history(hist):
     got = {s.name: s.width for s in top.signals}
     if got != expected_signals(model) or len(top.signals) != len(got):
         return (f"exported signals {sorted(got.items())} != expected {sorted(expected_signals(model).items())}", len(hist), model)
-    # additions after elaboration are refused
+    # additions after elaboration are refused - under a fresh name and when re-using a name - and leave the module as it is
+    def views():
+        return {vn: dict(getattr(m, vn)) for vn in list(set(VIEW_OF.values())) + ["namespace"]}
+
+    before = views()
+    bytes_before = pkg.SerializeToString(deterministic=True)
+    attempts = [("late", "sig", "setattr")] + [(n, k, f) for n in list(m.namespace)[:3] for k in ("sig", "inst") for f in ("setattr", "add_name_arg")]
+    for name, kind, form in attempts:
+        try:
+            apply_op(h, m, env, (name, kind, form))
+            return (f"addition after elaboration accepted ({form} of a {kind} as {name!r})", len(hist), model)
+        except Exception:
+            pass
+        if views() != before:
+            return (f"a refused post-elaboration addition ({form} of a {kind} re-using {name!r}) still changed the module's views", len(hist), model)
     try:
-        m.late = h.Signal()
-        return ("addition after elaboration accepted", len(hist), model)
-    except Exception:
-        pass
+        if h.to_proto(m).SerializeToString(deterministic=True) != bytes_before:
+            return ("export changed after refused post-elaboration additions", len(hist), model)
+    except Exception as e:
+        return ("export fails after refused post-elaboration additions: " + short_exc(e), len(hist), model)
     return (None, len(hist), model)
 
 
@@ -310,11 +324,17 @@ def _bundle_history(hist):
             return (f"assignment to reserved name {bn!r} accepted", len(hist))
         except Exception:
             pass
-        try:
-            bd.add(h.Signal(name=bn))
-            return (f"add() under reserved name {bn!r} accepted", len(hist))
-        except Exception:
-            pass
+        for how in ("named", "arg"):
+            before = (dict(bd.namespace), dict(bd.signals), dict(bd.bundles))
+            try:
+                if how == "named":
+                    bd.add(h.Signal(name=bn))
+                else:
+                    bd.add(h.Signal(), name=bn)
+                return (f"add() under reserved name {bn!r} accepted", len(hist))
+            except Exception:
+                if (dict(bd.namespace), dict(bd.signals), dict(bd.bundles)) != before:
+                    return (f"rejected add() under reserved name {bn!r} still changed the bundle", len(hist))
     for bad in (5, h.R(r=1), h.Module(name="X")):
         try:
             bd.q2 = bad
